@@ -930,6 +930,20 @@ def data_sources(repo: Repo, inl: "Inliner | None", grv: FuncInfo) -> dict[str, 
     return {p: m[f"DATA{i}"] for i, p in enumerate(grv.param_names[1:]) if f"DATA{i}" in m}
 
 
+def point_taint(repo: Repo, verb: str, exc: bool) -> str:
+    """Non-empty when the bucket table of a configuration point rests on a construct the interpreter walked without a model
+    (a `while` loop, a handler, ...): a failed comparison at that point is *undecided*, not a finding."""
+    for imp in (True, False):
+        sc = Scenario(verb, exc, imp)
+        notes = run_scenario(repo, sc).interp.notes
+        for b in demand_run(repo, sc).values():
+            if b.undecided:
+                return b.undecided
+            if not b.empty and b.mode in ("unknown", "mixed") and notes:
+                return f"{b.field}: {b.detail or 'elements of unknown origin'} (the interpreter walked without a model: {'; '.join(notes[:3])})"
+    return ""
+
+
 def plain_mode(repo: Repo, field: str) -> tuple:
     """(mode, granularity, detail) of a bucket of the plain (module-rule) detector, over every point at which it is active."""
     modes, grans, details, und = set(), set(), [], ""
@@ -941,7 +955,7 @@ def plain_mode(repo: Repo, field: str) -> tuple:
         grans.add(b.gran)
         if b.detail:
             details.append(b.detail)
-        und = und or b.undecided
+        und = und or b.undecided or point_taint(repo, sc.verb, sc.exc)
     mode = next(iter(modes)) if len(modes) == 1 else ("mixed" if modes else None)
     gran = next(iter(grans)) if len(grans) == 1 else ("joint" if "joint" in grans else "filtered" if "filtered" in grans else None)
     return mode, gran, "; ".join(dict.fromkeys(details)), und
